@@ -120,6 +120,55 @@ theorem Csr.numEdges_spec {b : CsrB} {g : G} (r : b.Rel g) : b.build.numEdges = 
   rintro ⟨s, t⟩
   rw [mem_csrPairs r, mem_pairs]
 
+/-- the (start, end) pairs the adjacency map's outbound index encodes -/
+def amPairs (a : AdjMap) : List (Nat × Nat) := a.outbound.flatMap (fun kv => kv.2.map (fun y => (kv.1, y)))
+
+theorem amPairs_length (a : AdjMap) : (amPairs a).length = a.numEdges := by
+  unfold amPairs AdjMap.numEdges
+  rw [sum_map_length_flatMap]
+  simp
+
+theorem amPairs_nodup {a : AdjMap} {g : G} (r : a.Rel g) : (amPairs a).Nodup := by
+  unfold amPairs List.Nodup
+  rw [List.pairwise_flatMap]
+  constructor
+  · intro kv hkv
+    obtain ⟨k, s⟩ := kv
+    rw [List.pairwise_map]
+    have hs : mget a.outbound k = s := mget_of_mem r.keysNodup hkv
+    have hasc := asc_pairwise_ne (r.ascOut k)
+    rw [hs] at hasc
+    exact hasc.imp (fun hne heq => hne (by simpa using heq))
+  · have hk := r.keysNodup
+    unfold List.Nodup at hk
+    rw [List.pairwise_map] at hk
+    refine hk.imp ?_
+    intro kv kv' hne x hx y hy heq
+    obtain ⟨_, _, rfl⟩ := List.mem_map.mp hx
+    obtain ⟨_, _, rfl⟩ := List.mem_map.mp hy
+    simp only [Prod.mk.injEq] at heq
+    exact hne heq.1
+
+theorem mem_amPairs {a : AdjMap} {g : G} (r : a.Rel g) (s t : Nat) : (s, t) ∈ amPairs a ↔ HasEdge g.edges s t := by
+  rw [← r.out s t]
+  unfold amPairs
+  simp only [List.mem_flatMap, List.mem_map, Prod.mk.injEq]
+  constructor
+  · rintro ⟨⟨k, row⟩, hkv, y, hy, rfl, rfl⟩
+    rw [mget_of_mem r.keysNodup hkv]; exact hy
+  · intro h
+    obtain ⟨row, hrow, hy⟩ := mem_of_mem_mget h
+    exact ⟨(s, row), hrow, t, hy, rfl, rfl⟩
+
+/-- `adjacencyMapDigraph.NumEdges` (repaired) = number of distinct (start, end) pairs of the edge list -/
+theorem AdjMap.numEdges_spec {a : AdjMap} {g : G} (r : a.Rel g) : a.numEdges = g.pairs.length := by
+  rw [← amPairs_length]
+  apply List.Perm.length_eq
+  have hp : g.pairs.Nodup := nodup_dedupP _
+  rw [List.perm_ext_iff_of_nodup (amPairs_nodup r) hp]
+  rintro ⟨s, t⟩
+  rw [mem_amPairs r, mem_pairs]
+
 theorem TS.numEdges_spec {t : TS} {g : G} (r : t.Rel g) : t.numEdges = g.edges.length := by
   unfold TS.numEdges; rw [r.edges]
 
